@@ -289,10 +289,73 @@ def _decoder_history(groups, rng, n):
     return None
 
 
+def _framed_filtered(groups, rng):
+    """fast-packet PGNs with several definitions, delivered FRAME BY FRAME to a decoder that filters by id (a sibling
+    excluded, or the definition itself included): the definition is chosen from the whole payload, so the message of a
+    definition that is not filtered out comes back under its own id"""
+    from nmea2000.decoder import NMEA2000Decoder
+    from props import c10 as H
+    for pgn, g in groups.items():
+        if not (len(g) > 1 and any(_match_fields(d) for d in g)):
+            continue
+        try:
+            if not NMEA2000Decoder._isFastPGN(pgn):
+                continue
+        except Exception:  # noqa: BLE001
+            continue
+        nb = max([8] + [d.get("Length", 8) for d in g if isinstance(d.get("Length", 8), int)])
+        for d in g:
+            mf = _match_fields(d)
+            if not mf or max(f["BitOffset"] + f["BitLength"] for f in mf) <= 48:
+                continue                      # all match fields inside the first frame's six payload bytes
+            p = 0
+            for f in mf:
+                p |= f["Match"] << f["BitOffset"]
+            if _spec_select(g, p) is not d:
+                continue
+            sibs = [e for e in g if e is not d and _match_fields(e)]
+            if not sibs:
+                continue
+            e = rng.choice(sibs)
+            data = p.to_bytes(nb, "little")
+            for cfg in ({"exclude_pgns": [e["Id"]]}, {"include_pgns": [d["Id"]]}, {"exclude_pgns": [e["Id"].upper()]}):
+                dec = NMEA2000Decoder(**cfg)
+                dst = 255 if not H.is_pdu1(pgn) else 17
+                got = "none"
+                try:
+                    for fr in H.fast_frames(data, rng.randrange(8)):
+                        m = dec.decode_tcp(H.mk_pkt(pgn, 9, dst, 3, (fr + bytes([0xFF] * 8))[:8], 8))
+                        if m is not None:
+                            got = m.id
+                except Exception:  # noqa: BLE001
+                    got = "raises"
+                if got == "raises":
+                    continue
+                # a decoder without filters, same frames: what the rule's definition decodes to (it may legitimately raise)
+                plain = NMEA2000Decoder()
+                ref = "none"
+                try:
+                    for fr in H.fast_frames(data, 1):
+                        m = plain.decode_tcp(H.mk_pkt(pgn, 9, dst, 3, (fr + bytes([0xFF] * 8))[:8], 8))
+                        if m is not None:
+                            ref = m.id
+                except Exception:  # noqa: BLE001
+                    continue
+                if ref == d["Id"] and got != d["Id"]:
+                    return {"key": "select:framed-with-id-filter", "kind": "framed", "pgn": pgn, "payload": hex(p), "cfg": cfg,
+                            "what": f"PGN {pgn} payload {p:#x} delivered as fast-packet frames to a decoder with {cfg}: the database "
+                                    f"rule selects {d['Id']} (not filtered out; a decoder without filters returns it), this decoder "
+                                    f"returns {got}"}
+    return None
+
+
 def search(ctx):
     groups = _groups(_db())
     rng = ctx.rng
     out = []
+    w = _framed_filtered(groups, rng)
+    if w:
+        out.append(w)
     w = _decoder_history(groups, rng, ctx.n(150, 2000))     # before the recorder replaces the per-definition functions
     if w:
         out.append(w)
@@ -336,6 +399,10 @@ def replay(ctx, data):
         print("observed:", f"PGN {bad[0]} payload {bad[1]}: returned {bad[2]}, database rule selects {bad[3]}" if bad
               else "property holds on this history")
         return bad is not None
+    if w.get("kind") == "framed":
+        r = _framed_filtered({w["pgn"]: _groups(_db())[w["pgn"]]}, ctx.rng)
+        print("observed:", r["what"] if r else "property holds on this input")
+        return r is not None
     if w.get("kind") != "select":
         return True
     groups = _groups(_db())
